@@ -1217,6 +1217,31 @@ def aggregate_probe(R, aspects=("dispatch", "schema"), n_classes=40, data_per_cl
                             R.violation(f"a value with aggregate fields does not round-trip: {v!r} -> {out!r} -> {back!r}", info)
                     except Exception as e:   # noqa
                         R.violation(f"serialize / deserialize of a value with aggregate fields raised {type(e).__name__}: {e}", info)
+                if "ser_schema" in aspects and ok:
+                    from apischema import serialize
+                    from apischema.json_schema import serialization_schema
+                    try:
+                        out = serialize(mod.C, v, aliaser=al, additional_properties=ap)
+                        sdoc = serialization_schema(mod.C, aliaser=al, additional_properties=ap)
+                        svalid = jsonschema.Draft202012Validator(sdoc).is_valid(out)
+                    except Exception as e:   # noqa
+                        R.violation(f"serialize / serialization_schema of a class with aggregate fields raised {type(e).__name__}: {e}", info)
+                        continue
+                    if not svalid:
+                        attributed = False
+                        if nflat and not ap:          # KF-C07-flattened-closed-branches: the members of the allOf left open
+                            opened = copy.deepcopy(sdoc)
+                            for k_, member in enumerate(opened.get("allOf", [])):
+                                if isinstance(member, dict) and "$ref" in member:
+                                    member = copy.deepcopy(_resolve(opened, member["$ref"]))
+                                    opened["allOf"][k_] = member
+                                if isinstance(member, dict) and member.get("additionalProperties") is False:
+                                    del member["additionalProperties"]
+                            attributed = jsonschema.Draft202012Validator(opened).is_valid(out) \
+                                and R.known_match("ser-flattened-closed-branches")
+                        if not attributed:
+                            R.violation(f"serialize output {out!r} is invalid against serialization_schema (class with flattened / "
+                                        "pattern / additional properties fields)", dict(info, schema=sdoc, output=out))
                 if "dispatch" in aspects:
                     agg = (f"(mkAgg {coq_list(map(coq_str, known))} {coq_list(coq_list(map(coq_str, fl)) for fl in flats)} "
                            f"{coq_list(map(coq_str, pats))} {coq_bool(has_add)})")
